@@ -954,6 +954,11 @@ void run_c19(Judge& j, uint64_t n, int64_t only = -1) {
             AttemptPlan a; a.hs = AttemptPlan::hs_custom; a.custom_bytes = hostile;
             base.attempts.push_back(a);
         }
+        uint32_t own_limit = 0;
+        if (phase >= 1 && rng.chance(1, 4)) {
+            own_limit = (uint32_t)rng.pick(std::vector<int>{60, 126, 127, 128, 129, 130, 131, 200, 300, 1000});
+            base.ccfg.connect_props[boost::mqtt5::prop::maximum_packet_size] = own_limit;
+        }
         vt t0 = 50 * MS;
         // own requests so that replies can be (mis)matched
         int nreq = (int)rng.range(phase >= 2 ? 1 : 0, 3);
@@ -982,6 +987,15 @@ void run_c19(Judge& j, uint64_t n, int64_t only = -1) {
                     ref::Packet p; p.type = ref::PUBLISH; p.qos = (uint8_t)rng.below(3); p.pid = p.qos ? uint16_t(100 + k) : 0; p.topic = "in/hostile/" + std::to_string(k); p.payload = "ok" + std::to_string(k);
                     hostile += ref::encode(p);
                 }
+            }
+            if (own_limit) {
+                // the client announced its own Maximum Packet Size: a well-formed PUBLISH whose total size is at / just above it
+                // (in particular: Remaining Length within the limit, total size not). Larger ones are hostile by definition.
+                ref::Packet p; p.type = ref::PUBLISH; p.qos = 0; p.topic = "in/hostile/big";
+                uint32_t want = own_limit + (uint32_t)rng.range(0, 8) - 3;
+                std::string enc;
+                for (size_t pl = want > 24 ? want - 24 : 0; pl <= want; ++pl) { p.payload.assign(pl, 'z'); enc = ref::encode(p); if (enc.size() >= want) break; }
+                if (rng.chance(1, 2)) hostile += enc; else hostile = enc + hostile;
             }
             Action hb; hb.kind = Action::hostile_bytes; hb.at = 200 * MS; hb.bytes = hostile; base.script.push_back(hb);
         }
